@@ -3,6 +3,7 @@
 package goproto
 
 import (
+	"go/constant"
 	"fmt"
 	"go/ast"
 	"go/token"
@@ -49,6 +50,7 @@ func Run(cfg core.Config, scope core.Scope) *core.Result {
 	res.Rules = append(res.Rules,
 		"GOPROTO.capture: a variable of the spawning function that a goroutine assigns is written under a mutex that also covers every other concurrent access, or by a single goroutine whose completion (WaitGroup) every other access waits for",
 		"GOPROTO.scratch: a buffer allocated with make in the spawning function is not written (handed whole to a call, used as copy destination, or stored at an index that does not depend on the goroutine) by a goroutine that is started more than once, unless under a lock",
+		"GOPROTO.semcap: a channel used as a counting semaphore (sent to before a go statement, received from inside the goroutine) is created with a capacity that is provably at least 1",
 		"GOPROTO.wg: every WaitGroup Add is matched by goroutines that defer Done, with a count equal to the spawning loop's trip count, and Wait is reached",
 		"GOPROTO.close: every channel that is ranged over or used as a quit signal is closed by exactly one site that is reached on all exits of its function",
 		"GOPROTO.sibling: the serial and concurrent implementations dispatched from one call site read the same settings parameters")
@@ -74,6 +76,7 @@ func Run(cfg core.Config, scope core.Scope) *core.Result {
 					res.Count("go_statements", len(c.gos))
 					c.capture()
 					c.scratch()
+					c.semaphores()
 					c.waitGroups()
 					c.channels()
 					res.Sample(map[string]any{"rule": "GOPROTO", "func": c.name, "go_statements": len(c.gos)})
@@ -614,6 +617,139 @@ func (c *fnCtx) calleeWrites(call *ast.CallExpr, arg ast.Expr) bool {
 		return !writes
 	})
 	return writes
+}
+
+// semaphores implements GOPROTO.semcap. The dispatcher sends a token on the
+// channel before each `go`; a worker gives it back when it finishes. With
+// capacity 0 the first send blocks before any worker exists.
+func (c *fnCtx) semaphores() {
+	// channels made in this function: object -> capacity expression (nil if unbuffered)
+	made := map[types.Object]ast.Expr{}
+	ast.Inspect(c.fd.Body, func(n ast.Node) bool {
+		as, ok := n.(*ast.AssignStmt)
+		if !ok || len(as.Lhs) != len(as.Rhs) {
+			return true
+		}
+		for i, r := range as.Rhs {
+			call, ok := r.(*ast.CallExpr)
+			if !ok {
+				continue
+			}
+			if id, ok := call.Fun.(*ast.Ident); !ok || id.Name != "make" || len(call.Args) == 0 {
+				continue
+			}
+			tv, ok := c.info.Types[call.Args[0]]
+			if !ok {
+				continue
+			}
+			if _, isChan := tv.Type.Underlying().(*types.Chan); !isChan {
+				continue
+			}
+			if lid, ok := as.Lhs[i].(*ast.Ident); ok {
+				if o := core.ObjOf(c.info, lid); o != nil {
+					if len(call.Args) >= 2 {
+						made[o] = call.Args[1]
+					} else {
+						made[o] = nil
+					}
+				}
+			}
+		}
+		return true
+	})
+	if len(made) == 0 {
+		return
+	}
+	// positive: provably >= 1
+	var positive func(e ast.Expr) bool
+	positive = func(e ast.Expr) bool {
+		e = ast.Unparen(e)
+		if tv, ok := c.info.Types[e]; ok && tv.Value != nil {
+			return constant.Sign(tv.Value) > 0
+		}
+		switch x := e.(type) {
+		case *ast.BinaryExpr:
+			switch x.Op {
+			case token.MUL, token.ADD:
+				return positive(x.X) && positive(x.Y)
+			}
+		case *ast.CallExpr:
+			if tv, ok := c.info.Types[x.Fun]; ok && tv.IsType() && len(x.Args) == 1 {
+				return positive(x.Args[0])
+			}
+			switch f := x.Fun.(type) {
+			case *ast.SelectorExpr:
+				if id, ok := f.X.(*ast.Ident); ok {
+					if pn, ok := core.ObjOf(c.info, id).(*types.PkgName); ok && pn.Imported().Path() == "runtime" {
+						return f.Sel.Name == "GOMAXPROCS" || f.Sel.Name == "NumCPU"
+					}
+				}
+			case *ast.Ident:
+				if f.Name == "max" {
+					for _, a := range x.Args {
+						if positive(a) {
+							return true
+						}
+					}
+				}
+				if f.Name == "min" {
+					for _, a := range x.Args {
+						if !positive(a) {
+							return false
+						}
+					}
+					return len(x.Args) > 0
+				}
+			}
+		}
+		return false
+	}
+	for _, g := range c.gos {
+		if g.lit == nil {
+			continue
+		}
+		// the statement just before the go statement sends on a made channel …
+		list, idx := c.siblings_(g.stmt)
+		if idx <= 0 {
+			continue
+		}
+		send, ok := list[idx-1].(*ast.SendStmt)
+		if !ok {
+			continue
+		}
+		id, ok := ast.Unparen(send.Chan).(*ast.Ident)
+		if !ok {
+			continue
+		}
+		ch := core.ObjOf(c.info, id)
+		capExpr, isMade := made[ch]
+		if !isMade {
+			continue
+		}
+		// … and the goroutine receives from it
+		receives := false
+		ast.Inspect(g.lit.Body, func(n ast.Node) bool {
+			if u, ok := n.(*ast.UnaryExpr); ok && u.Op == token.ARROW {
+				if rid, ok := ast.Unparen(u.X).(*ast.Ident); ok && core.ObjOf(c.info, rid) == ch {
+					receives = true
+				}
+			}
+			return true
+		})
+		if !receives {
+			continue
+		}
+		c.res.Obligations++
+		c.res.Count("counting_semaphores", 1)
+		if capExpr == nil || !positive(capExpr) {
+			what := "no capacity"
+			if capExpr != nil {
+				what = "capacity " + types.ExprString(capExpr)
+			}
+			c.res.Add(core.Finding{Rule: "GOPROTO.semcap", Key: fmt.Sprintf("GOPROTO.semcap|%s|%s", c.name, id.Name), Pos: core.Pos(send.Pos()), Func: c.name,
+				Msg: fmt.Sprintf("%s is a counting semaphore (a token is sent before each goroutine is started and returned by the goroutine) created with %s, which is not provably >= 1: with capacity 0 the first send blocks before any worker exists and the call never returns", id.Name, what)})
+		}
+	}
 }
 
 func (c *fnCtx) stmtOf(n ast.Node) ast.Node {
